@@ -28,7 +28,10 @@ CLAIMS = {
         design_ref="5 (C09)"),
     "C16": dict(
         technique="Coq proof (channel creation, removal of the last member, configured channels at start-up and default ranks on join) + create-use-empty-recreate life-cycle sweep over six ways of leaving against the real server",
-        text="PERSIST AND KEEP THEIR RANK LISTS in every reachable world (C16_configured_channels_persist; frame proved through all 41 commands, teardown, KILL delivery and induction over the event list): after any history every channel of the configuration exists, is marked preconfigured - so it is never dropped when it empties - and carries the configured rank lists a joiner's ranks are read from (per step: C16_preconfigured_kept_by_every_step). Theorems (props/C16.v) for ALL states/configurations: a JOIN to an absent name is always (join, create) and inserts the fresh channel - no topic, key, limit, lists or flags, the joiner "
+        text="BORN WITH A FOUNDER, for every history (C16_channel_born_only_by_join): over every event of every connection a channel that is there after the step and was not there before was named "
+             "in a JOIN line of a registered connection - this very event - and is that connection's fresh channel: the joiner its only member, founder and operator, no topic, default settings - also "
+             "when the JOIN list repeats names or mixes fresh names with existing channels; no other command (C16_other_commands_create_no_channel, all 41), no registration, session end or KILL "
+             "creates a channel. PERSIST AND KEEP THEIR RANK LISTS in every reachable world (C16_configured_channels_persist; frame proved through all 41 commands, teardown, KILL delivery and induction over the event list): after any history every channel of the configuration exists, is marked preconfigured - so it is never dropped when it empties - and carries the configured rank lists a joiner's ranks are read from (per step: C16_preconfigured_kept_by_every_step). Theorems (props/C16.v) for ALL states/configurations: a JOIN to an absent name is always (join, create) and inserts the fresh channel - no topic, key, limit, lists or flags, the joiner "
              "founder+operator; remove_user_from_channel of the only member (the single path used by PART, KICK and every session end) deletes an ordinary channel and keeps a preconfigured one, "
              "empty, with its topic; with another member present the channel stays; init contains every configured channel with the configured topic/flags/key/limit/lists, empty, marked "
              "preconfigured, rank lists moved to defaults; a joiner of an existing channel gets exactly the ranks the defaults list for its nick.",
@@ -96,7 +99,10 @@ CLAIMS = {
         note="Partial at proof level (theorem names end in _partial); one known finding, listed in known_findings.json."),
     "C15": dict(
         technique="Coq proof (symbolic execution of process_nick through the channel-rename fold; characterisation of the renamed channel) + nick-change sweep with a state-dump oracle on the real server",
-        text="Theorems (props/C15.v) for ALL states satisfying the invariant: an accepted change re-keys the user record with only its source prefix rewritten (owner, modes incl. operator and +w, "
+        text="AND NOTHING ELSE, for every history: over every event of every connection a connection keeps its nickname unless the event is its own NICK line "
+             "(C15_nick_changes_only_by_own_nick), a user is found under the key the same connection's user had before unless the event is the owner's NICK line or the line completing its "
+             "registration (C15_user_key_changes_only_by_own_nick), every other command of a registered connection keeps nick and source prefix of its record (C15_other_commands_keep_nick, all 41 commands). "
+             "Theorems (props/C15.v) for ALL states satisfying the invariant: an accepted change re-keys the user record with only its source prefix rewritten (owner, modes incl. operator and +w, "
              "away, memberships, invitations travel), frees the old key, renames the member in place in each of its channels (rank record and rank-list entries follow, other members untouched), "
              "leaves other channels untouched, re-keys the WALLOPS audience, appends one WHOWAS entry under the old nick, moves no counter, and sends the NICK line with the old source to "
              "every registered user; a nick held by another user gives exactly 433 and the identical state; the own nick is a no-op; an invalid nick is answered by the parser and never reaches the handler.",
@@ -161,7 +167,11 @@ CLAIMS = {
         note="History quantification is discharged by the theorems being about every shared state; which states are reachable matters only for the C05 no-Panic hypothesis."),
     "C03": dict(
         technique="Coq proof over the dispatch model (gate, state-independence of gated replies, characterisation of authenticate) + exhaustive verb x registration-progress x configuration sweep against the real server",
-        text="Theorems (props/C03.v), for ALL shared states, connection states, lines and configurations, with password verification a parameter: a command outside CAP/AUTHENTICATE/PASS/"
+        text="REGISTRATION NEEDS THE RIGHT PASSWORD, for every history (C03_registered_only_with_password; world invariant AuthW kept by every event of every connection, "
+             "C03_password_mark_kept_by_every_step, induction over the event list): in every reachable world whoever is in the user table is owned by a connection that is marked registered, "
+             "carries that nick and the user name it registered under, and holds a password that verifies against the hash applying to that name (the configured user's, else the server's) - "
+             "whatever the order of PASS/NICK/USER/CAP, however many refused attempts and nick changes came before. Per call, "
+             "for ALL shared states, connection states, lines and configurations, with password verification a parameter: a command outside CAP/AUTHENTICATE/PASS/"
              "NICK/USER/QUIT from an unregistered connection yields exactly 451 and leaves everything unchanged (C03_gate); its answer is the same in any two worlds (C03_no_reveal); a line "
              "turns the connection registered only if negotiation is closed, NICK and USER are set, the configured user mask globs the source, the applicable password verifies and the nick "
              "is free, and then exactly one user keyed by that nick and owned by that connection is inserted (C03_registration_only_if / _if); a failing password at that moment gives 464, "
